@@ -312,6 +312,8 @@ class Machine:
             return bool(v)
         if isinstance(v, (list, tuple, dict)):
             return bool(v)
+        if isinstance(v, _PySet):
+            return bool(v.s)
         if isinstance(v, Idx):
             if v.empty:
                 return False
@@ -474,6 +476,10 @@ class Machine:
         if hk and hk(self, st, env, fi):
             return
         it = self.ev(st.iter, env, fi)
+        if isinstance(it, dict):
+            it = list(it.keys())
+        if isinstance(it, tuple):
+            it = list(it)
         if isinstance(it, list):
             seq = it
         elif isinstance(it, _Range):
@@ -836,9 +842,30 @@ class Machine:
     e_GeneratorExp = e_ListComp
 
     def e_SetComp(self, e, env, fi):
+        r = self.e_ListComp(e, env, fi)
+        if isinstance(r, list):
+            try:
+                return _PySet(set(r))
+            except TypeError:
+                pass
         return Opaque("comp", True)
 
-    e_DictComp = e_SetComp
+    def e_DictComp(self, e, env, fi):
+        if len(e.generators) == 1:
+            g = e.generators[0]
+            it = self.ev(g.iter, env, fi)
+            if isinstance(it, (list, tuple)):
+                out = {}
+                env2 = dict(env)
+                try:
+                    for item in it:
+                        self.store(g.target, item, env2, fi, e)
+                        if all(self.truth(self.ev(c, env2, fi), f"{fi.name}:comp-if@{e.lineno}") for c in g.ifs):
+                            out[self.ev(e.key, env2, fi)] = self.ev(e.value, env2, fi)
+                    return out
+                except TypeError:
+                    pass
+        return Opaque("dictcomp", True)
 
     def e_NamedExpr(self, e, env, fi):
         v = self.ev(e.value, env, fi)
@@ -902,6 +929,15 @@ class Machine:
                 r = left.ci == right.ci
                 return r if isinstance(op, ast.Is) else not r
             return Opaque("is?")
+        if isinstance(op, (ast.In, ast.NotIn)):
+            cont = right.s if isinstance(right, _PySet) else (right if isinstance(right, (list, tuple, dict)) else None)
+            if cont is not None:
+                try:
+                    r = left in cont
+                    return r if isinstance(op, ast.In) else not r
+                except TypeError:
+                    return Opaque("in?")
+            return Opaque("in?")
         lc, rc = self.as_count(left), self.as_count(right)
         if lc is not None and rc is not None:
             d = dict(lc)
@@ -1078,6 +1114,8 @@ class Machine:
             return _DictMethod(o, attr)
         if isinstance(o, list):
             return _ListMethod(o, attr)
+        if isinstance(o, _PySet):
+            return _SetMethod(o, attr)
         return Opaque(f"?.{attr}")
 
     def e_Call(self, e, env, fi):
@@ -1148,6 +1186,17 @@ class Machine:
             if fv.name == "copy":
                 return list(fv.lst)
             return Opaque("list." + fv.name)
+        if isinstance(fv, _SetMethod):
+            try:
+                if fv.name == "add" and args:
+                    fv.st.s.add(args[0])
+                    return NONE
+                if fv.name == "discard" and args:
+                    fv.st.s.discard(args[0])
+                    return NONE
+            except TypeError:
+                pass
+            return Opaque("set." + fv.name, True)
         if isinstance(fv, _DictMethod):
             if fv.name == "copy":
                 return dict(fv.d)
@@ -1207,6 +1256,18 @@ class Machine:
             return args[0]
         if name == "range":
             return _Range(args, False)
+        if name == "id" and len(args) == 1:
+            v = args[0]
+            if isinstance(v, Ref):
+                return f"id:{v.obj}:{v.comp}"
+            return Opaque("id", True)
+        if name in ("set", "frozenset") and not args:
+            return _PySet(set())
+        if name in ("set", "frozenset", "list", "tuple") and len(args) == 1 and isinstance(args[0], (list, tuple)):
+            try:
+                return _PySet(set(args[0])) if name in ("set", "frozenset") else list(args[0])
+            except TypeError:
+                return Opaque(name, True)
         if name in ("any", "all") and len(args) == 1 and isinstance(args[0], (list, tuple)):
             ts = [self.truth(x, f"{name}@{e.lineno}") for x in args[0]]
             return any(ts) if name == "any" else all(ts)
@@ -1353,6 +1414,17 @@ class _DictMethod:
 @dataclass
 class _ListMethod:
     lst: list
+    name: str
+
+
+class _PySet:
+    def __init__(self, s):
+        self.s = s
+
+
+@dataclass
+class _SetMethod:
+    st: _PySet
     name: str
 
 
